@@ -128,6 +128,23 @@ func effectiveHeaders(svc, method []*sebufhttp.Header) (eff []*sebufhttp.Header,
 	return eff, ambiguous
 }
 
+// headerHazard reports why an RPC's header declarations cannot be served with "good" values: names that
+// differ only in case (override semantics undocumented) or an override pattern covered by an open finding.
+func headerHazard(e *engine, info *RPCInfo, res *Result) string {
+	if _, ambiguous := effectiveHeaders(info.SvcHeaders, info.MethodHeaders); ambiguous {
+		return "service and method headers differ only in case (override semantics undocumented)"
+	}
+	for _, mh := range info.MethodHeaders {
+		for _, sh := range info.SvcHeaders {
+			if mh.GetName() == sh.GetName() && sh.GetRequired() && !mh.GetRequired() && e.avoid("header_override_drops_required") {
+				res.excluded(e.cfg.Avoid["header_override_drops_required"] + ":header_override_drops_required")
+				return "method-level optional override of a required service header"
+			}
+		}
+	}
+	return ""
+}
+
 // buildC09: requests are dispatched only when every required header is present and valid.
 func buildC09(e *engine, p *rt.Package) {
 	var srv *server
